@@ -127,6 +127,10 @@ func account(rep *hx.Report, res *policy.CaseResult, kind string) {
 				if strings.Count(part, "ip:") > 1 && strings.Contains(part, "!") {
 					rep.Hit("in-fragment-case:several-ipBlocks-with-except")
 				}
+				if at := strings.LastIndex(part, "@"); at > 0 && part[:at] != "-" &&
+					(strings.Count(part[at:], "tcp/") > 15 || strings.Count(part[at:], "udp/") > 15) {
+					rep.Hit("in-fragment-case:more-than-15-ports")
+				}
 			}
 		}
 		rep.Hit("policy-types:" + w[5])
@@ -145,6 +149,9 @@ func account(rep *hx.Report, res *policy.CaseResult, kind string) {
 						rep.Hit("peer:ip-with-except")
 					}
 				}
+			}
+			if strings.Count(part[at+1:], "tcp/") > 15 || strings.Count(part[at+1:], "udp/") > 15 {
+				rep.Hit("rule:more-than-15-ports")
 			}
 			if part[at+1:] == "-" {
 				rep.Hit("rule:no-ports")
